@@ -128,20 +128,22 @@ func (p *proxy) close() {
 	p.mu.Unlock()
 }
 
-// closedReplConns counts replication connections that have ended.
-func (p *proxy) closedReplConns() int {
+// replState reports how many replication connections (those on which the
+// follower asked for the log) were opened so far and whether the newest of
+// them has ended.
+func (p *proxy) replState() (opened int, activeClosed bool) {
 	p.mu.Lock()
 	conns := append([]*proxyConn{}, p.conns...)
 	p.mu.Unlock()
-	n := 0
 	for _, pc := range conns {
 		pc.mu.Lock()
-		if pc.closed && bytes.Contains(bytes.ToLower(pc.up.Bytes()), []byte("\r\naof\r\n")) {
-			n++
+		if bytes.Contains(bytes.ToLower(pc.up.Bytes()), []byte("\r\naof\r\n")) {
+			opened++
+			activeClosed = pc.closed
 		}
 		pc.mu.Unlock()
 	}
-	return n
+	return opened, activeClosed
 }
 
 // verifyStreams parses everything the leader sent on every proxied connection
@@ -393,7 +395,7 @@ func runFollowerCase(e *fwEnv, p fwCase) *outcome {
 		o.inconclusive = "follower did not report caught_up with the leader's log size within 20 s before the case"
 		return o
 	}
-	closedBefore := e.px.closedReplConns()
+	openedBefore, _ := e.px.replState()
 	replBefore, bad0 := e.px.verifyStreams()
 	if bad0 != "" {
 		o.fail(findingForwardTear, "before the case: %s", bad0)
@@ -624,7 +626,10 @@ func runFollowerCase(e *fwEnv, p fwCase) *outcome {
 				break wait
 			case <-time.After(50 * time.Millisecond):
 			}
-			if e.px.closedReplConns() > closedBefore || !time.Now().Before(deadline) {
+			// (an older connection that is only now seen closing does not count:
+			// only the link that was up when the case began, or a re-attachment)
+			opened, activeClosed := e.px.replState()
+			if opened > openedBefore || activeClosed || !time.Now().Before(deadline) {
 				select {
 				case <-s.done:
 				case <-time.After(300 * time.Millisecond):
@@ -810,6 +815,11 @@ func TestC10_FollowerForward(t *testing.T) {
 			if o.key == findingForwardTear {
 				c.Known(findingForwardTear, o.what)
 				break
+			}
+			if o.key == "follower-subscriber-lost" && o.labels["follower-reattached-during-case"] {
+				// the heavy shape exists to provoke link drops; a loss across a
+				// re-attachment whose capture parsed cleanly is not attributed
+				continue
 			}
 			if o.key != "" {
 				// not the listed finding: report it
